@@ -25,6 +25,7 @@ import (
 	"fmt"
 	"os"
 	"runtime"
+	"strings"
 	"sync"
 	"sync/atomic"
 	"testing"
@@ -52,6 +53,13 @@ func c03Hook(name string, args ...interface{}) error {
 	case "split.afterCAS":
 		c03SplitWins.Add(1)
 	case "reader.newCommitted.afterHW", "split.afterCreate", "split.beforeSeal":
+	case "clean.afterCleanSegments":
+		// fires on the goroutine that called Clean(): only cleaner goroutines
+		// registered by a run react
+		if v, ok := c03CleanRuns.Load(c03GoID()); ok {
+			v.(*c03CleanRun).afterCleanSegments()
+		}
+		return nil
 	default:
 		return nil
 	}
@@ -82,6 +90,7 @@ type c03Reader struct {
 	hi        atomic.Int64 // upper end of the window for the first offset
 	delivered atomic.Int64
 	done      atomic.Bool
+	excused   atomic.Bool // see the stuck-state predicate
 	ctxReader contextReader
 	mu        sync.Mutex
 }
@@ -137,7 +146,7 @@ func TestVerifC03Stress(t *testing.T) {
 			if rep.NumViolations() >= 6 {
 				return
 			}
-			c03Run(rep, lo+k, seeds[lo+k], profile, false)
+			c03Run(rep, lo+k, seeds[lo+k], profile, false, c03Extra{})
 		})
 	}
 	rep.Count("reader_parks_at_hook", c03Parks.Load())
@@ -147,24 +156,51 @@ func TestVerifC03Stress(t *testing.T) {
 
 var c03TwoAdv atomic.Int64
 
-func c03Run(rep *kit.Report, idx int, seed uint64, profile int, follower bool) {
+func c03Run(rep *kit.Report, idx int, seed uint64, profile int, follower bool, ex c03Extra) {
 	rng := kit.NewRNG(seed)
 	maxSeg := []int64{64, 200, 1000}[rng.Intn(3)]
 	total := int64(rng.Range(80, kit.Scale(260, 420)))
 	nread := rng.Range(3, 8)
 	withRO := rng.Chance(1, 4) && !follower
+	if ex.maxSeg != 0 {
+		maxSeg = ex.maxSeg
+	}
+	if ex.maxTotal != 0 && total > ex.maxTotal {
+		total = ex.maxTotal - int64(rng.Intn(30))
+	}
+	ex.trunc = ex.trunc && follower
+	isExtra := ex.clean != 0 || ex.trunc || ex.maxSeg != 0
+	if ex.st == nil {
+		ex.st = &c03ExtraStats{}
+	}
 	dir := vfTempDir("c03")
 	defer os.RemoveAll(dir)
-	l, err := vfOpen(vfOpts(dir, maxSeg))
+	l, err := vfOpen(ex.opts(dir, maxSeg))
 	if err != nil {
 		rep.Violation("C03:harness-open", err.Error(), nil)
 		return
 	}
 	defer l.Close()
 	witness := func() map[string]any {
-		return map[string]any{"run": idx, "run_seed": seed, "maxSegmentBytes": maxSeg, "messages": total, "readers": nread, "readonly_toggles": withRO, "delay_profile": profile, "follower_mode": follower}
+		w := map[string]any{"run": idx, "run_seed": seed, "maxSegmentBytes": maxSeg, "messages": total, "readers": nread, "readonly_toggles": withRO, "delay_profile": profile, "follower_mode": follower}
+		if isExtra {
+			w["cleaner_passes"] = c03CleanNames[ex.clean]
+			w["tail_truncations"] = ex.trunc
+		}
+		return w
 	}
-	fail := func(fp, what string) { rep.Violation(fp, what, witness()) }
+	var runFailed atomic.Bool
+	fail := func(fp, what string) {
+		runFailed.Store(true)
+		if !strings.Contains(fp, c03StaleHWTag) {
+			c03NewViol.Add(1)
+		}
+		rep.Violation(fp, what, witness())
+	}
+	// passSeq / truncSeq are odd while a cleaner pass / a truncation of this
+	// run is in flight.
+	var passSeq, truncSeq atomic.Int64
+	var cleanerDone atomic.Bool
 
 	var appended atomic.Int64 // number of messages appended so far
 	var writerDone atomic.Bool
@@ -188,14 +224,54 @@ func c03Run(rep *kit.Report, idx int, seed uint64, profile int, follower bool) {
 				finalSet.Store(true)
 			}
 		}()
+		truncs := 0
 		for next := int64(0); next < total; {
+			if ex.trunc && truncs < 12 && next > 0 && r.Chance(1, 5) {
+				// What a follower does on a leader change: cut the uncommitted
+				// tail (always above the HW) and fetch it again.  This goroutine
+				// is the only HW writer and the only appender, so hw and newest
+				// are exact here.
+				hw, newest := l.HighWatermark(), next-1
+				if newest > hw {
+					t := hw + 1 + int64(r.Intn(int(newest-hw)))
+					if r.Chance(1, 8) {
+						t = newest + 1 // nothing to cut
+					}
+					nsegBefore := len(l.Segments())
+					truncSeq.Add(1)
+					err := l.Truncate(t)
+					truncSeq.Add(1)
+					if err != nil {
+						fail("C03:truncate-error", fmt.Sprintf("Truncate(%d) with HW=%d newest=%d failed: %v", t, hw, newest, err))
+						return
+					}
+					if got := l.NewestOffset(); got != t-1 {
+						fail("C03:truncate-result", fmt.Sprintf("after Truncate(%d) (HW=%d, newest before %d) the newest offset is %d, expected %d", t, hw, newest, got, t-1))
+						return
+					}
+					if got := l.HighWatermark(); got != hw {
+						fail("C03:hw-not-monotone", fmt.Sprintf("Truncate(%d) above the HW moved the HW from %d to %d", t, hw, got))
+						return
+					}
+					truncs++
+					ex.st.truncs.Add(1)
+					if t <= newest {
+						ex.st.truncCut.Add(1)
+						if len(l.Segments()) < nsegBefore {
+							ex.st.truncSegsDropped.Add(1)
+						}
+					}
+					next = t
+					appended.Store(next)
+				}
+			}
 			n := int64(r.Range(1, 5))
 			if next+n > total {
 				n = total - next
 			}
 			msgs := make([]*Message, n)
 			for k := int64(0); k < n; k++ {
-				msgs[k] = c01Content(seed, next+k).msg()
+				msgs[k] = ex.content(seed, next+k).msg()
 			}
 			var offs []int64
 			var err error
@@ -205,7 +281,11 @@ func c03Run(rep *kit.Report, idx int, seed uint64, profile int, follower bool) {
 				// leader's HW lies anywhere between the previous HW and the
 				// leader's log end, which may be beyond this batch.
 				lhw := follCur
-				switch x := r.Intn(6); {
+				x := r.Intn(6)
+				if ex.trunc && r.Chance(1, 3) {
+					x = 0 // leader HW lags: the uncommitted tail grows
+				}
+				switch {
 				case x == 0:
 				case x < 4:
 					lhw = next + int64(r.Intn(int(n)+1)) - 1
@@ -384,6 +464,54 @@ func c03Run(rep *kit.Report, idx int, seed uint64, profile int, follower bool) {
 			}
 		}()
 	}
+	// cleaner passes (what cleanerLoop does on its ticker whenever a retention
+	// limit or compaction is configured), concurrent with the appender that
+	// rolls segments and with the committed readers.
+	if ex.clean != 0 {
+		auxWg.Add(1)
+		go func() {
+			defer auxWg.Done()
+			defer cleanerDone.Store(true)
+			cs := &c03CleanRun{l: l, writerDone: &writerDone, st: ex.st}
+			gid := c03GoID()
+			c03CleanRuns.Store(gid, cs)
+			defer c03CleanRuns.Delete(gid)
+			r := kit.NewRNG(seed ^ 0xD)
+			passes := 0
+			for {
+				select {
+				case <-stopAux:
+					return
+				default:
+				}
+				cs.n0 = len(l.Segments())
+				// a compaction pass is long by itself (one segment creation per
+				// sealed segment)
+				cs.widen = ex.clean != c03CleanCompact && r.Chance(1, 2)
+				passSeq.Add(1)
+				err := l.Clean()
+				passSeq.Add(1)
+				if err != nil {
+					fail("C03:clean-error", fmt.Sprintf("Clean() (%s) failed while appends/reads were running: %v", c03CleanNames[ex.clean], err))
+					return
+				}
+				ex.st.passes.Add(1)
+				if grown := len(l.Segments()) - cs.n0; grown >= 2 || cs.grownInPass >= 2 {
+					ex.st.passes2Rolls.Add(1)
+				}
+				cs.grownInPass = 0
+				if ex.clean == c03CleanCompact {
+					// every pass rewrites every sealed segment: a handful per run
+					if passes++; passes >= 5 {
+						return
+					}
+					time.Sleep(time.Duration(500+r.Intn(3000)) * time.Microsecond)
+				} else {
+					time.Sleep(time.Duration(r.Intn(600)) * time.Microsecond)
+				}
+			}
+		}()
+	}
 
 	// readers
 	readers := make([]*c03Reader, nread)
@@ -469,13 +597,57 @@ func c03Run(rep *kit.Report, idx int, seed uint64, profile int, follower bool) {
 			if l.OldestOffset() == -1 {
 				onEmpty.Add(1)
 			}
-			rd.start, rd.hwBefore = start, hw0
-			reader, err := l.NewReader(start, false)
-			if err != nil {
-				fail("C03:reader-open", fmt.Sprintf("NewReader(%d, committed) failed with HW=%d newest=%d: %v", start, hw0, l.NewestOffset(), err))
+			// While a compaction pass is between "segment replaced" and
+			// "cleaned list installed", the log's segment list still holds the
+			// closed originals: NewReader, the re-creation of a reader after
+			// ErrSegmentReplaced and the HW lookup of a woken reader fail with
+			// ErrSegmentClosed (index lookups on a closed segment are not
+			// turned into ErrSegmentReplaced).  The same happens to a call
+			// that took its segment-list snapshot just before a Truncate.
+			// The subscription ends with an explicit error; nothing wrong is
+			// delivered, so this is not judged here (counted): the harness
+			// does what a client does and subscribes again at the next offset
+			// it expects.  Only when a pass / a truncation of this run
+			// overlapped the failing call.
+			seqNow := func() [2]int64 { return [2]int64{passSeq.Load(), truncSeq.Load()} }
+			transient := func(err error, ps0 [2]int64) bool {
+				if pkgErrors.Cause(err) != ErrSegmentClosed {
+					return false
+				}
+				if ex.clean == c03CleanCompact && (ps0[0]%2 == 1 || passSeq.Load() != ps0[0]) {
+					return true
+				}
+				return ex.trunc && (ps0[1]%2 == 1 || truncSeq.Load() != ps0[1])
+			}
+			open := func(ns int64, hwHint int64, what string) (*Reader, int64, int64, bool) {
+				for attempt := 0; ; attempt++ {
+					ps0 := seqNow()
+					hwB := l.HighWatermark()
+					if attempt == 0 && hwHint >= -1 {
+						hwB = hwHint
+					}
+					rdr, err := l.NewReader(ns, false)
+					if err == nil {
+						return rdr, hwB, l.HighWatermark(), true
+					}
+					if ctx.Err() != nil {
+						return nil, 0, 0, false
+					}
+					if transient(err, ps0) {
+						ex.st.transientOpen.Add(1)
+						time.Sleep(200 * time.Microsecond)
+						continue
+					}
+					fail("C03:reader-open", fmt.Sprintf("NewReader(%d, committed)%s failed with HW=%d newest=%d: %v", ns, what, hwB, l.NewestOffset(), err))
+					return nil, 0, 0, false
+				}
+			}
+			rd.start = start
+			reader, hwB, hwA, ok := open(start, hw0, "")
+			if !ok {
 				return
 			}
-			rd.hwAfter = l.HighWatermark()
+			rd.hwBefore, rd.hwAfter = hwB, hwA
 			rd.mu.Lock()
 			rd.ctxReader = reader.ctxReader
 			rd.mu.Unlock()
@@ -487,12 +659,51 @@ func c03Run(rep *kit.Report, idx int, seed uint64, profile int, follower bool) {
 			hb := make([]byte, 28)
 			c03Hb.Store(rd, hb)
 			lastHW := int64(-1)
+			lastCtx := reader.ctxReader
+			recreatedBeforeFirst := false
+			var slow *kit.RNG
+			if isExtra && rd.id%2 == 1 {
+				slow = kit.NewRNG(seed ^ 0xF ^ uint64(rd.id)<<8)
+			}
+			// resubscribe where we were (what a client does after its
+			// subscription ended)
+			resub := func(what string) bool {
+				ns := rd.next.Load()
+				if rd.first.Load() == -1 {
+					// nothing delivered yet; keep the original request
+					ns = start
+				}
+				var hwB, hwA int64
+				var ok bool
+				reader, hwB, hwA, ok = open(ns, -2, what)
+				if !ok {
+					return false
+				}
+				rd.mu.Lock()
+				rd.ctxReader = reader.ctxReader
+				rd.mu.Unlock()
+				lastCtx = reader.ctxReader
+				if rd.first.Load() == -1 {
+					lo, hi = c03Window(ns, hwB, hwA)
+					rd.hi.Store(hi)
+				}
+				return true
+			}
 			for {
+				ps0 := seqNow()
 				hwPre := l.HighWatermark()
 				m, off, ts, ep, err := reader.ReadMessage(ctx, hb)
 				if err != nil {
 					if ctx.Err() != nil {
 						return // cancelled by the harness (watchdog or end of run)
+					}
+					if transient(err, ps0) {
+						ex.st.transientRead.Add(1)
+						time.Sleep(200 * time.Microsecond)
+						if !resub(" after a read failed with ErrSegmentClosed during a compaction pass / truncation") {
+							return
+						}
+						continue
 					}
 					if pkgErrors.Cause(err) == ErrCommitLogReadonly || err == ErrCommitLogReadonly {
 						// End of a read-only log: legal only if everything
@@ -506,30 +717,25 @@ func c03Run(rep *kit.Report, idx int, seed uint64, profile int, follower bool) {
 							return
 						}
 						rep.Count("readonly_ends", 1)
-						// resubscribe where we were
-						ns := rd.next.Load()
-						if rd.first.Load() == -1 {
-							// nothing delivered yet; keep the original request
-							ns = start
-						}
-						hwB := l.HighWatermark()
-						reader, err = l.NewReader(ns, false)
-						if err != nil {
-							fail("C03:reader-open", fmt.Sprintf("NewReader(%d) after end-of-readonly failed: %v", ns, err))
+						if !resub(" after end-of-readonly") {
 							return
-						}
-						hwA := l.HighWatermark()
-						rd.mu.Lock()
-						rd.ctxReader = reader.ctxReader
-						rd.mu.Unlock()
-						if rd.first.Load() == -1 {
-							lo, hi = c03Window(ns, hwB, hwA)
-							rd.hi.Store(hi)
 						}
 						continue
 					}
-					fail("C03:reader-error", fmt.Sprintf("committed reader(start=%d) failed after %d messages (next %d, HW %d): %v", start, rd.delivered.Load(), rd.next.Load(), l.HighWatermark(), err))
+					fail("C03:reader-error"+c03StaleHW(reader, ex), fmt.Sprintf("committed reader(start=%d) failed after %d messages (next %d, HW %d): %v", start, rd.delivered.Load(), rd.next.Load(), l.HighWatermark(), err))
 					return
+				}
+				if reader.ctxReader != lastCtx {
+					// the Reader re-created its contextReader (its segment was
+					// replaced by a compaction pass or a truncation)
+					lastCtx = reader.ctxReader
+					rd.mu.Lock()
+					rd.ctxReader = lastCtx
+					rd.mu.Unlock()
+					ex.st.recreated.Add(1)
+					if rd.first.Load() == -1 {
+						recreatedBeforeFirst = true
+					}
 				}
 				hwPost := l.HighWatermark()
 				if hwPost < lastHW || hwPost < hwPre {
@@ -538,7 +744,7 @@ func c03Run(rep *kit.Report, idx int, seed uint64, profile int, follower bool) {
 				}
 				lastHW = hwPost
 				if off > hwPost {
-					fail("C03:uncommitted-delivered", fmt.Sprintf("committed reader delivered offset %d while the HW sampled after the read is %d", off, hwPost))
+					fail("C03:uncommitted-delivered"+c03StaleHW(reader, ex), fmt.Sprintf("committed reader delivered offset %d while the HW sampled after the read is %d", off, hwPost))
 					return
 				}
 				rec, derr := vfDecode(m, off, ts, ep)
@@ -546,13 +752,26 @@ func c03Run(rep *kit.Report, idx int, seed uint64, profile int, follower bool) {
 					fail("C03:content", fmt.Sprintf("offset %d: %v", off, derr))
 					return
 				}
-				want := c01Content(seed, off)
+				want := ex.content(seed, off)
 				want.Hdr = vfNormHdr(want.Hdr)
 				if !vfSameRec(rec, want) {
 					fail("C03:content", fmt.Sprintf("got %v want %v", rec, want))
 					return
 				}
 				if rd.first.Load() == -1 {
+					if recreatedBeforeFirst && start > rd.hwBefore {
+						// Unspecified corner: a reader created beyond the HW
+						// ("next committed message") whose segment is replaced
+						// between its wake-up and its first read is re-created
+						// from the offset it originally asked for, i.e. it starts
+						// at that offset if committed by then, else after the HW
+						// of that moment.  Accepted: anything from the documented
+						// first offset up to min(requested offset, HW).
+						if h2 := min(start, hwPost); h2 > hi {
+							hi = h2
+							ex.st.firstAfterRecreate.Add(1)
+						}
+					}
 					if off < lo || off > hi {
 						fail("C03:first-offset", fmt.Sprintf("reader(start=%d, HW before/after creation %d/%d) delivered %d first, expected within [%d,%d]", start, rd.hwBefore, rd.hwAfter, off, lo, hi))
 						return
@@ -563,11 +782,29 @@ func c03Run(rep *kit.Report, idx int, seed uint64, profile int, follower bool) {
 					if off < rd.next.Load() {
 						fp = "C03:duplicate-or-reorder"
 					}
-					fail(fp, fmt.Sprintf("reader(start=%d) delivered %d after %d", start, off, rd.next.Load()-1))
+					fail(fp+c03StaleHW(reader, ex), fmt.Sprintf("reader(start=%d) delivered %d after %d", start, off, rd.next.Load()-1))
 					return
 				}
 				rd.next.Store(off + 1)
 				rd.delivered.Add(1)
+				if slow != nil && ex.clean != 0 && !cleanerDone.Load() && slow.Chance(1, 10) {
+					// a consumer that stays idle across a whole cleaner pass:
+					// wait (bounded, scheduling aid only) until the pass in
+					// flight, or else the next one, has installed its result
+					p0 := passSeq.Load()
+					target := p0 + 2 - p0%2
+					deadline := time.Now().Add(300 * time.Millisecond)
+					for passSeq.Load() < target && !cleanerDone.Load() && ctx.Err() == nil && time.Now().Before(deadline) {
+						time.Sleep(100 * time.Microsecond)
+					}
+					if passSeq.Load() >= target {
+						ex.st.idleAcrossPass.Add(1)
+					}
+				} else if slow != nil && slow.Chance(1, 3) {
+					// a slow consumer: stays inside sealed segments while the
+					// cleaner / the truncating follower replaces them
+					time.Sleep(time.Duration(slow.Intn(400)) * time.Microsecond)
+				}
 				rep.Count("committed_reads", 1)
 				if off == H {
 					return
@@ -582,7 +819,7 @@ func c03Run(rep *kit.Report, idx int, seed uint64, profile int, follower bool) {
 	// reach H) or if its first offset is certainly <= H.  A reader created
 	// beyond the final HW legitimately waits forever.
 	pending := func(rd *c03Reader) bool {
-		return !rd.done.Load() && (rd.first.Load() != -1 || rd.hi.Load() <= H)
+		return !rd.done.Load() && !rd.excused.Load() && (rd.first.Load() != -1 || rd.hi.Load() <= H)
 	}
 	allDone := func() bool {
 		for _, rd := range readers {
@@ -594,11 +831,40 @@ func c03Run(rep *kit.Report, idx int, seed uint64, profile int, follower bool) {
 	}
 	deadline := time.Now().Add(60 * time.Second)
 	stuckSeen := map[int]int{}
-	for !allDone() && rep.NumViolations() == 0 {
+	for !allDone() && !runFailed.Load() && c03NewViol.Load() == 0 {
 		if finalSet.Load() {
 			// quiescent: HW is final.  A reader parked in hwWaiters that still
 			// has committed messages to deliver can never be woken.
 			l.mu.Lock()
+			// A Reader that re-created its contextReader inside the current
+			// ReadMessage call (segment replaced) parks under a key the
+			// harness has not seen yet.  All hwWaiters keys of this log belong
+			// to this run's readers, so when the unknown keys are exactly as
+			// many as the pending readers not found under their known key,
+			// those readers are the parked ones.
+			known := map[contextReader]bool{}
+			for _, rd := range readers {
+				rd.mu.Lock()
+				if rd.ctxReader != nil {
+					known[rd.ctxReader] = true
+				}
+				rd.mu.Unlock()
+			}
+			unknown, unfound := 0, 0
+			for k := range l.hwWaiters {
+				if !known[k] {
+					unknown++
+				}
+			}
+			for _, rd := range readers {
+				if !rd.done.Load() {
+					rd.mu.Lock()
+					if _, ok := l.hwWaiters[rd.ctxReader]; rd.ctxReader != nil && !ok {
+						unfound++
+					}
+					rd.mu.Unlock()
+				}
+			}
 			for _, rd := range readers {
 				if !pending(rd) {
 					continue
@@ -610,6 +876,17 @@ func c03Run(rep *kit.Report, idx int, seed uint64, profile int, follower bool) {
 					continue
 				}
 				_, parked := l.hwWaiters[cr]
+				if !parked && unknown > 0 && unknown == unfound {
+					if rd.first.Load() == -1 && rd.start > H {
+						// re-created before its first delivery from a requested
+						// offset beyond the final HW: it waits for a message
+						// that will never be committed (see the first-offset
+						// corner above); owes nothing
+						rd.excused.Store(true)
+						continue
+					}
+					parked = true
+				}
 				if parked && l.hw == H && !l.IsReadonly() {
 					stuckSeen[rd.id]++
 				} else {
@@ -650,7 +927,12 @@ func c03Run(rep *kit.Report, idx int, seed uint64, profile int, follower bool) {
 	for i, rd := range readers {
 		starts[i] = rd.start
 	}
-	if nseg >= 3 && beyond.Load() > 0 {
+	if isExtra {
+		// the cleaner unit has its own non-triviality rule
+		if nseg >= 3 && (ex.clean == 0 || ex.st.passes.Load() > 0) {
+			rep.Nontrivial(fmt.Sprintf("%d|%d|%v|%d|%v|%s|%v", maxSeg, total, starts, profile, follower, c03CleanNames[ex.clean], ex.trunc))
+		}
+	} else if nseg >= 3 && beyond.Load() > 0 {
 		rep.Nontrivial(fmt.Sprintf("%d|%d|%v|%d", maxSeg, total, starts, profile))
 	}
 	if idx%97 == 0 {
@@ -692,7 +974,7 @@ func TestVerifC03Follower(t *testing.T) {
 			if rep.NumViolations() >= 6 {
 				return
 			}
-			c03Run(rep, lo+k, seeds[lo+k], profile, true)
+			c03Run(rep, lo+k, seeds[lo+k], profile, true, c03Extra{})
 		})
 	}
 }
